@@ -353,7 +353,16 @@ pub fn main() {
         }
         "C04" => c04::run(&opts),
         "C06" => c06::run(&opts),
-        "C08" | "C09" => sync::run(&opts, &opts.property.clone()),
+        "C09" => sync::run(&opts, "C09"),
+        "C08" => {
+            // crash injection on set_scripts / filter / download histories and on the first start,
+            // then on fork histories (rollback and tip update writes)
+            let mut r = sync::run(&opts, "C08");
+            if opts.replay.is_none() {
+                r.merge(c04::run_mode(&opts, "C08"));
+            }
+            r
+        }
         "C07" => c07::run(&opts),
         "C10" => {
             // byte-level fuzz of all four protocol handlers in every peer state + the handler
